@@ -120,12 +120,26 @@ def audit(module: str, theorems: list[str]) -> tuple[dict, str]:
     None = the theorem does not exist / did not elaborate."""
     src = f'import {module}\n' + '\n'.join(f'#print axioms {t}' for t in theorems) + '\n'
     tmp = LEAN_DIR / f'.audit_{module.replace(".", "_")}_{os.getpid()}.lean'
-    tmp.write_text(src)
-    try:
-        rc, out, err = _run(['lake', 'env', 'lean', str(tmp)])
-    finally:
-        tmp.unlink(missing_ok=True)
-    text = out + err
+    text = ''
+    # The audit reads the compiled files of the module's whole closure.  Another check running at the same
+    # time may be rebuilding a shared module (the generated tables, a common lemma file), so the audit holds the
+    # project lock, and an audit in which *nothing* elaborated right after a successful build is an
+    # infrastructure hiccup, not a verdict: rebuild and try again, then give up with an error (exit 2).
+    for attempt in range(3):
+        with _Lock():
+            if attempt:
+                _run(['lake', 'build', module])
+            tmp.write_text(src)
+            try:
+                rc, out, err = _run(['lake', 'env', 'lean', str(tmp)])
+            finally:
+                tmp.unlink(missing_ok=True)
+        text = out + err
+        if not theorems or re.search(r"depends on axioms|does not depend on any axioms", text):
+            break
+        time.sleep(2 + 3 * attempt)
+    else:
+        raise LeanError('axiom audit produced no output after a successful build (3 attempts): ' + text[-400:])
     res: dict = {t: None for t in theorems}
     # outputs look like: 'Ems.C01.ravel_wind' depends on axioms: [propext, Quot.sound]
     #                or: 'Ems.C01.foo' does not depend on any axioms
